@@ -30,7 +30,7 @@ RULE = (
     "quadrant of est yaw, quadrant of gt yaw, |d| bucket)"
 )
 ASSUMPTIONS = ["roll and pitch <= 0.05 rad; for tilted boxes the yaw is convention dependent to second order, tolerance 2*tilt^2", "yaw-only boxes: weight tolerance 1e-9, error tolerance 1e-9"]
-DECIDING = ["TPMetricsAph.get_value.checked", "get_heading_error.checked", "C09.negative_yaw_ego_pairs", "C09.sign_checked", "C09.frame_checked", "C09.symmetry_checked"]
+DECIDING = ["TPMetricsAph.get_value.checked", "get_heading_error.checked", "C09.negative_yaw_ego_pairs", "C09.sign_checked", "C09.frame_checked", "C09.symmetry_checked", "C09.derived_checked"]
 JOBS = {"quick": 2, "thorough": 14}
 
 
@@ -195,4 +195,48 @@ def run(ctx: Ctx) -> None:
             yg = ye if k < 0.1 else G.wrap_pi(ye + math.pi) if k < 0.2 else G.wrap_pi(ye + r.choice([-1, 1]) * r.choice([1e-9, 1e-6, math.pi - 1e-6])) if k < 0.35 else O.rand_yaw(r)
             rp = (r.uniform(-0.05, 0.05), r.uniform(-0.05, 0.05)) if r.random() < 0.3 else (0.0, 0.0)
             one(ctx, "random", i, ye, yg, [r.uniform(-math.pi, math.pi) for _ in range(2)], roll=rp[0], pitch=rp[1])
+        # ---- derived objects: the library itself copies objects and replaces their pose (frame conversion,
+        # interpolation); a heading computed earlier must not leak into the derived object
+        from perception_eval.common import dataset as ds_mod
+        from perception_eval.common.geometry import interpolate_object_list
+
+        for i in ctx.indices("derived", 60 if ctx.quick else 6000):
+            r = ctx.rng("derived", i)
+            ye, yg = O.rand_yaw(r), O.rand_yaw(r)
+            ctx.begin_case("derived", i, est_yaw=ye, gt_yaw=yg)
+            with ctx.case_guard("derived"):
+                e0, g0 = pair(ye, yg, r.random() < 0.3, r.random() < 0.3, "base_link")
+                e0.uuid, g0.uuid = "e", "g"
+                base = weight(e0, g0)  # headings queried once on the originals
+                # (1) ego -> map -> ego with another ego pose (library conversion helpers)
+                ego_a = O.ego2map((r.uniform(-500, 500), r.uniform(-500, 500), 0.0), O.rand_yaw(r))
+                ego_b = O.ego2map((r.uniform(-500, 500), r.uniform(-500, 500), 0.0), O.rand_yaw(r))
+                em, gm = ds_mod.convert_objects_to_global([e0, g0], ego_a)
+                from perception_eval.common.schema import FrameID
+
+                for o in (em, gm):
+                    o.frame_id = FrameID.MAP
+                from perception_eval.common.transform import TransformDict
+
+                wm = APH.get_value(DynamicObjectWithPerceptionResult(em, gm, MatchingLabelPolicy.DEFAULT, transforms=TransformDict([ego_a])))
+                ctx.check(close(wm, base, 1e-7, 0), "C09/aph_weight_depends_on_frame", dict(est_yaw=ye, gt_yaw=yg, ego=base, map=wm, via="convert_objects_to_global"), "TPMetricsAph.get_value")
+                eb, gb = ds_mod.convert_objects_to_base_link([em, gm], ego_b)
+                for o in (eb, gb):
+                    o.frame_id = FrameID.BASE_LINK
+                wb = APH.get_value(DynamicObjectWithPerceptionResult(eb, gb, MatchingLabelPolicy.DEFAULT))
+                ctx.check(close(wb, base, 1e-7, 0), "C09/aph_weight_depends_on_frame", dict(est_yaw=ye, gt_yaw=yg, ego=base, back=wb, via="convert_objects_to_base_link"), "TPMetricsAph.get_value")
+                # (2) interpolation between two poses of the same object: the heading of the result is the interpolated one
+                g1 = O.obj3d(3.0, 1.0, 0.0, yg, uuid="g", t=100)
+                yg2 = G.wrap_pi(yg + r.uniform(-2.5, 2.5))
+                g2 = O.obj3d(5.0, 2.0, 0.0, yg2, uuid="g", t=200)
+                weight(e0, g1)
+                weight(e0, g2)
+                t = r.choice([100, 150, 200, r.randint(100, 200)])
+                gi = interpolate_object_list([g1], [g2], 100, 200, t)[0]
+                wi = APH.get_value(DynamicObjectWithPerceptionResult(e0, gi, MatchingLabelPolicy.DEFAULT))
+                exp_yaw = G.yaw_of_quat(G.slerp(G.quat_from_yaw(yg), G.quat_from_yaw(yg2), (t - 100) / 100.0))
+                exp_w = 1.0 - G.yaw_diff_abs(yaw_of(e0), exp_yaw) / math.pi
+                ctx.check(close(wi, exp_w, 1e-5, 0), "C09/aph_weight_of_derived_object_not_from_its_own_orientation", dict(est_yaw=ye, gt_yaw_1=yg, gt_yaw_2=yg2, t=t, weight=wi, expected=exp_w), "TPMetricsAph.get_value")
+                ctx.count("C09.derived_checked")
+                ctx.case(("derived", quadrant(ye), quadrant(yg)), nontrivial=True)
         ctx.notes["taps"] = taps.installed
